@@ -186,12 +186,14 @@ theorem tieA_get_next_channel_inner {σ} (g : Rng σ) (a : Gen.PlanSelectFn.Avai
               by_cases h10 : used = 10
               · subst h10
                 have hd : decide ((((10 : Nat)) : Int) = 10) = true := by decide
+                have hd2 : decide ((10 : Int) = (((10 : Nat)) : Int)) = true := by decide
                 have h01 : Rt.ck .i32 (0 + 1) = some (((0 + 1 : Nat)) : Int) := by decide
                 simp only [Except.toOption, Option.bind_some, Bool.false_eq_true, if_false, beq_self_eq_true, if_true,
-                  hd, shr3_u32, wrap_and7, ck_chan _ _ (by omega : nx / 8 ≤ 8), h01]
+                  hd, hd2, shr3_u32, wrap_and7, ck_chan _ _ (by omega : nx / 8 ≤ 8), h01]
               · have h10' : ¬ ((used : Int) = 10) := by omega
                 have h10'' : (used == 10) = false := by simp [h10]
-                simp only [Except.toOption, Option.bind_some, Bool.false_eq_true, if_false, h10', h10'', decide_false,
+                have h10r : ¬ ((10 : Int) = (used : Int)) := by omega
+                simp only [Except.toOption, Option.bind_some, Bool.false_eq_true, if_false, h10', h10r, h10'', decide_false,
                   shr3_u32, wrap_and7, ck_chan _ _ (by omega : nx / 8 ≤ 8), ck_i32_succ used hu]
 
 theorem reset_wf (a : Gen.PlanSelectFn.AvailableChannels) : AvWF (Gen.JoinWalkFn.AvailableChannels.reset a) := by
